@@ -280,12 +280,13 @@ def run(ctx: Ctx):
         for rs in g["restarts"]:
             fk = g["files"][rs["k"]]
             at, _ = c08.abs_times(fk)
-            rstep = int(round((at[-1] - sc["start"]) / c08.scen.DT))
+            rstep = abs(int(round((at[-1] - sc["start"]) / c08.scen.DT)))
+            sg = -1 if sc["rev"] else 1          # (some of the base runs go backwards in time)
             case = dict(scenario=c08.scen.brief(sc), restart_from=fk["name"], at_step=rstep)
             ctx.case("warm-clock", [sc["seed"], rs["k"]], sample=case, nontrivial=True)
             if rs["status"] != "ok":
                 continue
-            expect = [float(sc["start"] + n * c08.scen.DT) for n in range(rstep + 1, sc["nsteps"]) if n % sc["period"] == 0]
+            expect = [float(sc["start"] + sg * n * c08.scen.DT) for n in range(rstep + 1, sc["nsteps"]) if n % sc["period"] == 0]
             have = [t for f in rs["files"] if "unreadable" not in f for t in c08.abs_times(f)[0]]
             if have != expect:
                 ctx.violation("failing-input", "warm-clock", case, dict(what="record times of the restarted run (absolute seconds)", implementation=have,
